@@ -34,6 +34,9 @@ def corpus():
         "c02 k_force_grow_db cbe=db sbe=fs devs=2 hist=c0:a|c0:b|u0:a|p0:0|c1:c|h1:0:0|o1",
         "c02 k_force_shrink cbe=fs sbe=fs devs=2 hist=c1:a|c1:b|c1:c|h1:0:0|o1",
         "c02 k_force_shrink_db cbe=db sbe=fs devs=2 hist=c1:a|c1:b|c1:c|h1:0:0|o1",
+        # a folder imported as a copy of an existing one (same secret ids in two folders)
+        "c02 k_import_copy cbe=fs sbe=fs devs=2 hist=c0:a|c0:b|i0:0|u0:a|x0:b|o0",
+        "c02 k_import_copy_db cbe=db sbe=fs devs=2 hist=c0:a|c0:b|i0:0|u0:a|o0",
     ]
 
 
@@ -46,15 +49,29 @@ def gen_cases(rng, tier):
     return out
 
 
+def diverged(obs):
+    """(step, device, folder) where the served folder differs from the real reducer's replay of its log: the oracle
+    reports those (served_eq_replay); the model replay is compared only where the implementation agrees with itself"""
+    served, reduced = {}, {}
+    for o in obs:
+        t = o.split()
+        if len(t) >= 5 and t[2] == "folder" and t[4] in ("served", "reduced"):
+            (served if t[4] == "served" else reduced)[(t[0], t[1], t[3])] = " ".join(t[5:])
+    return set(k for k in served if k in reduced and served[k] != reduced[k])
+
+
 def model_input(cases, impl):
     """one model line per (step, device, folder): the decrypted event trace observed on the implementation"""
     out = []
     for c in cases:
         cid = c.split()[1]
         n = 0
+        skip = diverged(impl.get(cid, []))
         for o in impl.get(cid, []):
             t = o.split()
             if len(t) >= 5 and t[0].startswith("!") and t[2] == "events":
+                if (t[0][1:], t[1], t[3]) in skip:
+                    continue
                 out.append("%s %s %s %s %s %s" % (SUB, cid, t[0][1:], t[1], t[3], t[4] if len(t) > 4 else ""))
                 n += 1
         if n == 0:
@@ -65,9 +82,10 @@ def model_input(cases, impl):
 def impl_projection(obs):
     """the implementation's served-folder lines, with the decrypted text normalised like the trace"""
     out = []
+    skip = diverged(obs)
     for o in obs:
         t = o.split()
-        if len(t) >= 5 and t[2] == "folder" and t[4] == "served":
+        if len(t) >= 5 and t[2] == "folder" and t[4] == "served" and (t[0], t[1], t[3]) not in skip:
             out.append(o)
     return out
 
@@ -80,10 +98,17 @@ def oracle(case, obs):
         return [{"oracle": "harness_crash", "detail": "harness aborted on this history"}]
     if len(steps) < len(hist):
         fails.append({"oracle": "no_observation", "detail": "history has %d steps, %d observed" % (len(hist), len(steps))})
+    # a folder imported as a copy on the database backend (same secret ids under another folder): everything observed on
+    # that device from then on carries the mark (finding C02-db-import-copy-reparents-secrets)
+    copied_db = {}
     for st in sorted(steps):
         S = steps[st]
+        op = S["op"] or ""
+        if op[:1] == "i" and kv.get("cbe") == "db" and S["res"] == "ok":
+            copied_db["D" + op[1:2]] = True
         for who, W in S["who"].items():
             if not who.startswith("D"): continue
+            mark = {"after_db_import_copy": 1} if copied_db.get(who) else {}
             for f, views in W["folders"].items():
                 srv = views.get("served"); red = views.get("reduced"); mir = views.get("mirror")
                 if srv is None or red is None or mir is None: continue
@@ -94,10 +119,10 @@ def oracle(case, obs):
                     continue
                 for key in ("name", "flags", "desc", "items"):
                     if a.get(key) != b.get(key):
-                        fails.append({"oracle": "served_eq_replay", "field": key, "op": (S["op"] or "")[:1],
+                        fails.append({"oracle": "served_eq_replay", "field": key, "op": (S["op"] or "")[:1], **mark,
                                       "detail": "step %d (%s) %s folder %s: served %s=%s but replay of the log gives %s" % (st, S["op"], who, f, key, a.get(key), b.get(key))})
                     if a.get(key) != c.get(key):
-                        fails.append({"oracle": "served_eq_mirror", "field": key, "op": (S["op"] or "")[:1],
+                        fails.append({"oracle": "served_eq_mirror", "field": key, "op": (S["op"] or "")[:1], **mark,
                                       "detail": "step %d (%s) %s folder %s: served %s=%s but the vault mirror holds %s" % (st, S["op"], who, f, key, a.get(key), c.get(key))})
     return fails
 
